@@ -415,8 +415,8 @@ def run(ck, facts):
                 ck.expect(ok_guard, "R6", key, "under %s.is_ok == %s" % (C.sym_show(base), arm == ".ok"),
                           "the `%s` arm of the result union is accessed without a dominating test of the same object's is_ok selecting it (base %s): the live payload is read or dropped as the wrong type when the flags of two values differ"
                           % (arm[1:], C.sym_show(base)), C.loc(f))
-    if n6 < 8:
-        ck.bad("R6", "floor", "only %d union-arm accesses found in the runtime (8 counted)" % n6)
+    if n6 < 4:   # 8 today; conversions written in terms of one another (Clone through as_ref) legitimately lower the count
+        ck.bad("R6", "floor", "only %d union-arm accesses found in the runtime (8 counted on the pinned tree, floor 4)" % n6)
 
     # ---- R5 C++ templates / generator strings
     import tmpl
@@ -474,6 +474,10 @@ def run(ck, facts):
     import c12
     sub_w = C.SubCheck(ck, "R3", "", ["R6"])
     c12.run(sub_w, facts)
+    # diplomat_alloc / diplomat_free build their Layout from exactly the caller's (size, align): Rust-side Box<[T]> / Box<str> owners release foreign-allocated buffers, and
+    # diplomat_free releases Rust-allocated ones, with the layout of the element type (C16.R4)
+    import c16
+    c16.run(C.SubCheck(ck, "R3", "", ["R4"]), facts)
 
 
 def run_thorough(ck, facts):
